@@ -383,6 +383,30 @@ CHECKS = {
         "cannot be converted; quick: a quarter of the 3.7k cases."),
   technique="TLC-enumerated layout x pipeline product replayed with an independent raw-h5py generator and comparator",
  ),
+ "C10": dict(
+  level="fault_enumeration",
+  design_ref="DESIGN.md section 5, C10",
+  text=("TaskAtomicSpec models the file-system protocol of the tasks "
+        "(unlink stale, open temp, writes, close, re-open, rename) with an "
+        "I/O error or a kill possible before every operation; TLC proves "
+        "that the output path is only ever absent or complete and only "
+        "changes by the final rename, for the single-output, join and "
+        "split program shapes (and rejects a program that writes to the "
+        "output path). On the real code, every file operation of the "
+        "fault-free run of each task (h5py open/close/create/write/resize/"
+        "attribute/object copy, pathlib rename/unlink, counted by an "
+        "interposer in a forked child) is made to fail with OSError and, "
+        "separately, the child is killed right before it; after each of "
+        "these runs every output path must be absent or load with the "
+        "fault-free content, and the inputs' sha256 must be unchanged. The "
+        "recorded operation traces are validated by TLC (TaskAtomicTrace)."),
+  note=("fault enumeration at operation granularity in-process (not at "
+        "syscall level); kernel/file-system durability of rename is not "
+        "claimed; quick: one input per task, first/last 25 operations + 10 "
+        "in between per task and mode (about 720 injected runs); thorough: "
+        "two inputs per task, every operation."),
+  technique="TLC protocol model + exhaustive fault/kill injection at every recorded file operation + TLC trace validation",
+ ),
 }
 
 NOT_YET = "check not built yet (work in progress; see DESIGN.md section 5)"
